@@ -415,7 +415,7 @@ func newJoin(c Cfg, w *vrt.World) *explore.Instance {
 				ad.send(seg)
 			}
 			vrt.Mark(vrt.Mix(uint64(i), 0xe0d))
-			if t := int64(c.R); t > 0 { // R doubles as the tail pause (units) for join harnesses
+			if t := c.Tail; t > 0 {
 				vtime.Sleep(time.Duration(t * unit))
 			}
 			ad.closeIn()
